@@ -347,6 +347,26 @@ class ExtendedKalmanFilter:
                     extra = f"\nExtra: {extra_from_map}"
                 raise ModelConstructionError(f"Mismatched Calibration:{missing}{extra}")
 
+        # Same structural checks as the Python filter
+        if len(process_noise) != self.control_size:
+            raise ModelConstructionError(
+                f"Process noise has {len(process_noise)} entries for {self.control_size} controls"
+            )
+        for key, value in process_noise.items():
+            if value < 0.0:
+                raise ModelConstructionError(f"Negative process noise for {key}")
+        if set(sensor_models.keys()) != set(sensor_noises.keys()):
+            raise ModelConstructionError(
+                f"Sensor noises {sorted(map(str, sensor_noises.keys()))} do not match sensor models {sorted(map(str, sensor_models.keys()))}"
+            )
+        for key, sensor_model in sensor_models.items():
+            if {str(k) for k in sensor_noises[key].keys()} != {
+                str(k) for k in sensor_model.keys()
+            }:
+                raise ModelConstructionError(
+                    f"Sensor noise for {key} does not match its readings"
+                )
+
         self._process_model = BasicBlock(
             statements=self._translate_process_model(state_model),
             indent=4,
